@@ -270,6 +270,29 @@ func evalFrameSpec(w *World, sp *Specs, fs *FrameSpec) *FrameResult {
 		}
 		summary["functions ranging over a map"] = dedup(found)
 	}
+	for _, r := range fs.MapWritesOnly {
+		var T types.Type
+		func() {
+			defer func() { recover() }()
+			T = env.resolveType(r.Fields[0])
+		}()
+		if T == nil {
+			res.OK = false
+			res.Violations = append(res.Violations, "cannot resolve map type "+r.Fields[0])
+			continue
+		}
+		var writers []string
+		for _, s := range fp.Stores {
+			if (s.Through == "mapupdate" || s.Through == "delete") && s.Type == typeName(T) {
+				writers = append(writers, funcKey(s.Fn))
+				if !matchFunc(funcKey(s.Fn), r.Funcs) {
+					res.OK = false
+					res.Violations = append(res.Violations, fmt.Sprintf("entry of a %s updated in %s (%s), outside the allowed writers %v", typeName(T), funcKey(s.Fn), s.Pos, r.Funcs))
+				}
+			}
+		}
+		summary["writers of maps of type "+typeName(T)] = dedup(writers)
+	}
 	if fs.HasGlobalReads {
 		found := map[string][]string{}
 		for f := range fp.Funcs {
